@@ -1,6 +1,7 @@
 import PQ.Model.Writer
 import PQ.Model.Reader
 import PQ.Model.Fault
+import PQ.Model.SinkFault
 import PQ.Model.Spec
 import PQ.Model.SpecWriter
 import PQ.Model.Snappy
@@ -114,6 +115,12 @@ def showCalls (calls : List (Option (List Bytes))) : String :=
   ";".intercalate (calls.map fun c => match c with
     | none => "panic"
     | some ws => if ws.isEmpty then "-" else ",".intercalate (ws.map fun w => toString w.length))
+
+/-- for every `k` from 1 to the number of sink writes of the run: the line of the run over a sink failing at
+write `k` (`PQ/Model/SinkFault.lean`), separated by blanks -/
+def showFaultRuns (calls : List (Option (List Bytes))) : String :=
+  let total := ((calls.map fun c => (c.getD []).length).sum)
+  " ".intercalate ((List.range total).map fun k => showFaultRun (faultRun calls (k + 1)))
 
 /-- decompression graph: `compressed=raw` pairs -/
 def parseDecomp (tab : String) : Decomp :=
